@@ -23,11 +23,11 @@ EXPLANATION = ("transformer model (Lark callback order) proved to build gates th
 SHARD = 40
 HASHSEEDS = {"quick": [0, 1], "thorough": [0, 1, 2, 3]}
 
-BBS = [["ff", ["clk", "d"], ["q"]], ["cell", ["a", "b"], ["y", "z"]]]
+BBS = [["ff", ["clk", "d"], ["q"]], ["cell", ["a", "b"], ["y", "z"]], ["endmodule_ff", ["d"], ["q"]]]      # finding C02-F4
 PLAIN = ["a", "b", "c", "d", "e", "f", "g", "h", "s", "w1", "w2", "n_3", "k9"]
 TRICKY = ["not_a", "and_a_b", "xor_a_b", "or_a_b", "xnor_a_b", "mux_o_a_b_c", "mux_n_a_b_c", "mux_a0_a_b_c", "tie_0", "tie_1", "tie_x",
           "and_a_b_0", "not_a_0", "not_not_a", "and_not_a_b", "tie_0_0", "not_tie_0", "xor_b_a", "\\a[0]", "\\x.y", "\\not_a", "inputx",
-          "wire_", "g_0", "not_b", "and_b_a", "or_a_not_a"]
+          "wire_", "g_0", "not_b", "and_b_a", "or_a_not_a", "x_endmodule", "endmodule_x", "endmodules"]
 
 
 def pick_names(rng, n):
